@@ -156,4 +156,4 @@ def search(rng, ops, broken):
 
 
 # tie theorems (substrings of SLV.Gen.*Tie theorem names) this property's operators depend on
-TIE = ['compute_simlex', 'compute_base_rate', 'gen_fuse', 'fuseSimplex', 'fuseSS', 'fuse_assign', 'max_uncertainty', 'uncertainty_maximized', 'Simplex_vacuous', 'is_vacuous', 'is_dogmatic', 'normalize_prob_dist', 'Simplex_normalized', 'OpinionRef_projection', 'Simplex_projection', 'discount', 'deduce', 'abduce', 'product', 'merge', 'mbr', 'inverse']
+TIE = ['compute_simlex', 'compute_base_rate', 'gen_fuse', 'fuseSimplex', 'fuseSS', 'fuse_assign', 'max_uncertainty', 'uncertainty_maximized', 'Simplex_vacuous', 'is_vacuous', 'is_dogmatic', 'normalize_prob_dist', 'Simplex_normalized', 'OpinionRef_projection', 'Simplex_projection', 'discount', 'deduce', 'abduce', 'product', 'merge', 'mbr', 'inverse', 'gen_is_in_range_eq', 'gen_in_unit_interval_eq', 'gen_is_one_eq', 'gen_is_zero_eq', 'gen_check_unit_interval_eq', 'gen_check_is_one_eq', 'OpinionRef_deduce', 'Opinion_deduce']
